@@ -39,6 +39,7 @@ func callApply(c *histConf, live, cfg *typed.TypedValue, m fieldpath.ManagedFiel
 		res = opResult{obj: o, managed: mm, err: err}
 	}()
 	res.calls = cv.calls
+	res.fired = cv.fired
 	same := before == snapshotArgs(live, cfg, m)
 	for k, v := range m { // the very set objects are still there
 		if sets[k] != v.Set() {
@@ -63,6 +64,7 @@ func callUpdate(c *histConf, live, obj *typed.TypedValue, m fieldpath.ManagedFie
 		res = opResult{obj: o, managed: mm, err: err}
 	}()
 	res.calls = cv.calls
+	res.fired = cv.fired
 	return res, before == snapshotArgs(live, obj, m)
 }
 
@@ -106,7 +108,7 @@ func genC08(e *emitter, tier string) {
 			if isApply {
 				v, tv = genConfig(e, multi, ver, st, nil, true)
 			} else {
-				v, tv = genUpdateObject(e, multi, ver, st, histOpts{degenerate: e.rng.Intn(2) == 0})
+				v, tv = genUpdateObject(e, multi, ver, st, histOpts{degenerate: e.rng.Intn(2) == 0, noDups: true})
 			}
 			if tv == nil {
 				continue
@@ -132,6 +134,11 @@ func genC08(e *emitter, tier string) {
 					r, s2 = callApply(multi, live, tv, copyManaged(st.managed), mgr, ver, force, k)
 				} else {
 					r, s2 = callUpdate(multi, live, tv, copyManaged(st.managed), mgr, ver, k)
+				}
+				if !r.fired {
+					// the number of conversions depends on the order in which Go visits the
+					// versions: this run made fewer calls than the counted one
+					continue
 				}
 				e.line(fmt.Sprintf("(c08.fault %s %s %s %s %d %s %s)", quote(multi.id), sexpTV(ver, live), sexpManaged(st.managed), op, k,
 					sexpOutcome(ver, r), sexpBool(s2)))
@@ -241,65 +248,16 @@ func genC09(e *emitter, tier string) {
 			if isApply {
 				v, tv = genConfig(e, multi, ver, st, nil, true)
 			} else {
-				v, tv = genUpdateObject(e, multi, ver, st, histOpts{degenerate: true})
+				v, tv = genUpdateObject(e, multi, ver, st, histOpts{degenerate: true, noDups: true})
 			}
 			if tv == nil {
 				continue
 			}
-			// the same call five times, separated by other calls: successful ones,
-			// conflicting ones, ones that fail midway, ones on invalid data
-			var outs []string
-			var first opResult
-			for rep := 0; rep < 5; rep++ {
-				var r opResult
-				if isApply {
-					r, _ = callApply(multi, live, tv, copyManaged(st.managed), mgr, ver, true, -1)
-				} else {
-					r, _ = callUpdate(multi, live, tv, copyManaged(st.managed), mgr, ver, -1)
-				}
-				if rep == 0 {
-					first = r
-				}
-				out := sexpOutcome(ver, r)
-				if r.ok() {
-					if r.obj != nil {
-						b, _ := value.ToJSON(r.obj.AsValue())
-						out += " json=" + string(b)
-					}
-					for _, k := range sortedManagers(r.managed) {
-						b, _ := r.managed[k].Set().ToJSON()
-						out += " " + k + "=" + string(b)
-					}
-				}
-				outs = append(outs, out)
-				disturb(e, multi, st, rep)
-			}
-			same := true
-			for _, o := range outs {
-				if o != outs[0] {
-					same = false
-				}
-			}
-			op := ""
-			if isApply {
-				op = fmt.Sprintf("(apply %s %s %s t)", quote(mgr), quote(ver), sexpValue(v))
-			} else {
-				op = fmt.Sprintf("(update %s %s %s)", quote(mgr), quote(ver), sexpValue(v))
-			}
-			nver := map[string]bool{}
-			for _, r := range st.managed {
-				nver[string(r.APIVersion())] = true
-			}
-			e.line(fmt.Sprintf("(c09.repeat %s %s %s %s %s %s %d %d)", quote(multi.id), sexpTV(ver, live), sexpManaged(st.managed), op,
-				sexpOutcome(ver, first), sexpBool(same), len(st.managed), len(nver)))
-			if first.ok() {
-				obj := first.obj
-				if obj == nil {
-					obj = live
-				}
-				st = &hstate{live: obj, liveVer: ver, managed: first.managed}
-			}
+			st = repeatStep(e, multi, st, live, isApply, mgr, ver, v, tv)
 		}
+	}
+	for h := 0; h < n; h++ {
+		runNestingC09(e, multi)
 	}
 	// value equality and ordering with both allocators
 	vals := valueUniverse()
@@ -315,6 +273,89 @@ func genC09(e *emitter, tier string) {
 		}
 	}
 	e.line(fmt.Sprintf("(c09.allocators %d %s)", len(vals)*len(vals), sexpBool(okAlloc)))
+}
+
+// the same call five times, separated by other calls (successful ones, conflicting ones,
+// ones that fail midway, ones on invalid data); returns the state after the call
+func repeatStep(e *emitter, multi *histConf, st *hstate, live *typed.TypedValue, isApply bool, mgr, ver string, v interface{}, tv *typed.TypedValue) *hstate {
+	var outs []string
+	var first opResult
+	for rep := 0; rep < 5; rep++ {
+		var r opResult
+		if isApply {
+			r, _ = callApply(multi, live, tv, copyManaged(st.managed), mgr, ver, true, -1)
+		} else {
+			r, _ = callUpdate(multi, live, tv, copyManaged(st.managed), mgr, ver, -1)
+		}
+		if rep == 0 {
+			first = r
+		}
+		out := sexpOutcome(ver, r)
+		if r.ok() {
+			if r.obj != nil {
+				b, _ := value.ToJSON(r.obj.AsValue())
+				out += " json=" + string(b)
+			}
+			for _, k := range sortedManagers(r.managed) {
+				b, _ := r.managed[k].Set().ToJSON()
+				out += " " + k + "=" + string(b)
+			}
+		}
+		outs = append(outs, out)
+		disturb(e, multi, st, rep)
+	}
+	same := true
+	for _, o := range outs {
+		if o != outs[0] {
+			same = false
+		}
+	}
+	op := ""
+	if isApply {
+		op = fmt.Sprintf("(apply %s %s %s t)", quote(mgr), quote(ver), sexpValue(v))
+	} else {
+		op = fmt.Sprintf("(update %s %s %s)", quote(mgr), quote(ver), sexpValue(v))
+	}
+	nver := map[string]bool{}
+	for _, r := range st.managed {
+		nver[string(r.APIVersion())] = true
+	}
+	e.line(fmt.Sprintf("(c09.repeat %s %s %s %s %s %s %d %d)", quote(multi.id), sexpTV(ver, live), sexpManaged(st.managed), op,
+		sexpOutcome(ver, first), sexpBool(same), len(st.managed), len(nver)))
+	if first.ok() {
+		obj := first.obj
+		if obj == nil {
+			obj = live
+		}
+		return &hstate{live: obj, liveVer: ver, managed: first.managed}
+	}
+	return st
+}
+
+// ownership chains through nested items that alternate between versions (the add-back
+// passes of prune), each step repeated
+func runNestingC09(e *emitter, multi *histConf) {
+	st := newState(multi, "v1")
+	for _, sp := range nestingSteps(e) {
+		var vObj interface{}
+		var tv *typed.TypedValue
+		if sp.apply {
+			vObj = convertUnstructured(multi, "v1", sp.ver, sp.obj)
+			tv = multi.typedAt(sp.ver, vObj, false)
+		} else {
+			l1, ok := st.liveAt(multi, "v1")
+			if !ok {
+				return
+			}
+			vObj = convertUnstructured(multi, "v1", sp.ver, mergeTop(unstructuredOf(l1), sp.obj))
+			tv = multi.typedAt(sp.ver, vObj, true)
+		}
+		live, ok := st.liveAt(multi, sp.ver)
+		if tv == nil || !ok {
+			return
+		}
+		st = repeatStep(e, multi, st, live, sp.apply, sp.mgr, sp.ver, vObj, tv)
+	}
 }
 
 func sortedManagers(m fieldpath.ManagedFields) []string {
